@@ -120,3 +120,13 @@ package client
 //@ func (*binnable).GetPrev
 //@   on return assert drops-prev-when-unordered: (f.noPrev ==> result == "") && (!f.noPrev ==> called(sts.Sendable.GetPrev) && result == lastret(sts.Sendable.GetPrev, 0) && lastarg(sts.Sendable.GetPrev, 0) == f.Sendable)
 //@   modifies nothing
+
+// ---------------------------------------------------------------- only acknowledged parts count as sent (C08)
+
+//@ func (*Broker).handleSendError
+//@   before call sts.Payload.Split assert split-at-acknowledged: arg0 == old(payload) && (nPartsReceived > 0 ==> arg1 == nPartsReceived) && (nPartsReceived == 0 ==> called(TxRecoverer) && lastret(TxRecoverer, 1) == nil && arg1 == lastret(TxRecoverer, 0) && lastarg(TxRecoverer, 0) == old(payload))
+//@   before call sendCh assert forwards-acknowledged-head: called(sts.Payload.Split) && arg2 == old(payload) && arg1 == broker.chTransmitted
+//@   on return assert acknowledged-parts-are-split-off: nPartsReceived > 0 && !lastret((*Broker).shouldStopNow, 0) ==> called(sts.Payload.Split) && lastarg(sts.Payload.Split, 1) == nPartsReceived
+//@   on return assert remainder-is-returned: called(sendCh) && lastret(sendCh, 0) ==> result == lastret(sts.Payload.Split, 0)
+//@   loop 0 invariant count-of-the-answer-is-kept: (nPartsReceived > 0 ==> n == nPartsReceived) && payload == old(payload)
+//@   on return assert nothing-acknowledged-nothing-dropped: !called(sts.Payload.Split) ==> result == old(payload) && !called(sendCh)
